@@ -64,6 +64,13 @@ CHECKS = {
           'deferred loaders are dirty until UpdateState on every caller chain; TriggerParse/UpdateState/OnTermChange walk the full dependency order after the reset with no early exit; lazy graphs rebuild completely; ParseCst stores one consistent auditor run.',
   'note': 'Frozen exception: Schema::SetDefinitionFor skips refresh only on the branch where FindExpr(new text) returns the constituent itself (identical syntax tree). Does not decide that the graph updater extracts exactly the mentioned globals, nor equality of results with a fresh build.',
  },
+ 'C10': {
+  'technique': 'writer/reader table agreement extracted from the typed AST (JSON keys with their source/destination members), exhaustive check of the enum string tables, ORDER rule for the load protocol',
+  'text': 'Decides the structural half of lossless save/load: for all to_json/from_json pairs and the Extract*/Load* helpers every key looked up by a reader is produced by its writer under the same path, every persistent key written is read back '
+          '(derived keys listed with reasons), the member written under a key is the member it is loaded into, every serialised enum table is a bijection covering all enumerators, the model is loaded core -> finalise -> data against the loaded typification, '
+          'and keyed containers are written with their keys.',
+  'note': 'Value-level equality of a reloaded object and stability of the re-serialised document are not decided. Model values are packed by SDCompact (decided under C16). Known finding: TextInterpretation is written without its interpretant ids (recorded in known_findings.json).',
+ },
 }
 
 _PENDING = 'rule module not yet implemented in this round; see DESIGN.md section 4 for the clauses planned'
